@@ -36,10 +36,27 @@ SITES = [
          params=["v", "newSize", "oldSize"], modes=["real", "float"]),
 ]
 
+SITES += [
+    # antialias cutoff in reciprocal space used by `_antialias_cutoff_gpts` (default grid of Waves.downsample)
+    dict(gen="FftCrop", name="cutoffK", file="abtem/waves.py", func="_antialias_cutoff_gpts", select=("assign", "kcut", 0),
+         params_map={"max(sampling)": "ms"}, params=["ms"], modes=["real", "float"]),
+]
+
 FINGERPRINTS = {
     "_fft_interpolation_masks_1d": (_F, _M),
     "fft_interpolation_masks": (_F, "fft_interpolation_masks"),
     "fft_crop": (_F, "fft_crop"),
     "fft_interpolate": (_F, "fft_interpolate"),
     "Waves.downsample": ("abtem/waves.py", "Waves.downsample"),
+    "_antialias_cutoff_gpts": ("abtem/waves.py", "_antialias_cutoff_gpts"),
 }
+
+# --- `_fft_crop_fold` (real input, fix of F16): when an axis is cropped to an even length the +Nyquist coefficient of the source is
+# folded onto the kept -Nyquist slot
+_FOLD = dict(gen="FftCrop", file=_F, func="_fft_crop_fold", params_map={"n1": "n1", "n2": "n2"},
+             param_types={"n1": "Int", "n2": "Int"}, modes=["rat"])
+SITES += [
+    dict(_FOLD, name="foldTest", select=("iftest", "n2 < n1", 0), params=["n1", "n2"], ret="Bool"),
+    dict(_FOLD, name="foldIndex", select=("subscript_value", "idx", 0), params=["n2"], ret="Int"),
+]
+FINGERPRINTS["_fft_crop_fold"] = (_F, "_fft_crop_fold")
